@@ -158,6 +158,11 @@ def generate(rng, tier, cls):
     if rng.chance(0.3):
         r['block_size'] = rng.choice([1, 7, 64, 97, 1000])
 
+    r.update(gen.gen_stream_extras(rng))
+
+    if rng.chance(0.15):
+        r['mutate'] = rng.randint(1, 4)
+
     return {'actors': [{'id': 'P1', 'kind': 'writer', 'file': 'f1',
                         'main_encoding': main, 'ops': ops}, r],
             'schedule': [], 'faults': [],
